@@ -17,7 +17,8 @@ RULE = ('timestamps are whole hours from 2020-01-01 (index points on a 6-hour gr
         'bound positions x 4 brackets. stitch cases: 1-4 series, increasing / non-strict / decreasing bound lists given as ub, lb or both, '
         'n in 1..number of series. unslice cases: stitch, df_unslice, stitch again. Every result is compared cell by cell (index and values) '
         'in Coq with M_slice; the oracle recomputes from the property text which timestamps belong to the window / to which interval, and '
-        'from which series each column must come, by plain loops over the real output. non-trivial = a bound coincides with an index point, '
+        'from which series each column must come, by plain loops over the real output. Varied in the random streams: bounds as datetime / date / Timestamp / np.datetime64 / YYYY-MM-DD / yyyymmdd, eras 1700 / 1970 / 2020 / 2250, keyword and tuple call forms, Series name / column labels / index name, DatetimeIndex input, 150-400 row series, up to 8 series, one series with several windows. '
+        'non-trivial = a bound coincides with an index point, '
         'a time-of-day bound, or more than one series; distinct by full case')
 EXPLANATION = ('theorems C13_* (coq/props/C13.v) hold for series of any length and any bounds: a single slice is exactly the filter of the rows '
                'inside the bracketed window (fast path = mask path on a sorted index), time-of-day bounds compare t mod day, a window with start '
